@@ -184,19 +184,21 @@ class Buck4_Spline(object):
 
 
   def _init_spline_coefficients(self):
-    r_dp = self.detach_point.r
+    # floats: integer separations (plain digits in a potable file) would give an integer matrix, exact but
+    # no longer a machine type once a fifth power exceeds 2**63
+    r_dp = float(self.detach_point.r)
     r_dp2 = r_dp**2
     r_dp3 = r_dp**3
     r_dp4 = r_dp**4
     r_dp5 = r_dp**5
 
-    r_min = self.r_min
+    r_min = float(self.r_min)
     r_min2 = r_min**2
     r_min3 = r_min**3
     r_min4 = r_min**4
     r_min5 = r_min**5
 
-    r_ap = self.attach_point.r
+    r_ap = float(self.attach_point.r)
     r_ap2 = r_ap**2
     r_ap3 = r_ap**3
 
